@@ -14,6 +14,45 @@ CHECKS = {
          "Within the same bounds no satisfiable non-dummy statement has a block hash that is not the fixed-order header hash, a header root different from the proven root, a path deeper than 16, an active position above 3 or a path that does not fold to the root.", "as C01", "§4 Leaf circuit"),
  "C04": ("leaf", MC, "same CX exploration; half-dummy statements, witnessed is_not_dummy in {unset,0,1,2}, all equality-hint deviations",
          "Within the same bounds a statement escapes the bindings only with zero block hash and zero outputs; no hint deviation (incl. the six is_equal hints of the dummy flag) changes the decision; range/fee clauses hold on dummies.", "as C01", "§4 Leaf circuit"),
+
+ "C06": ("wrap_private", EX, "bounded-exhaustive enumeration of child statement vectors on the real private-batch wrapper constraint system (CX, wrapper-only circuit via hook H1) against a native aggregate function",
+         "For every vector of the listed finite sets (full 64k-slot alphabet at N=1, 145^2 at N=2, 14^3/24^3 at N=3, distance balls with all permutations at N=3,4) the circuit's output equals the specified aggregate felt by felt (header from the first real slot, first-occurrence grouping of dummy-masked pairs, sorted nullifiers with H(H(u)) replacements, zero padding).",
+         "Child statements range over what the leaf circuit can prove; wrapper-only circuit uses zero_knowledge=false; N>=8 only sampled; recursion binding is C11.", "§4 Private-batch wrapper"),
+ "C07": ("wrap_private", EX, "same enumeration; acceptance compared two-sidedly with the compatibility/replay-freedom predicate, plus differential invariance under all permutations and dummy-content replacements inside the sets",
+         "Within the same sets the wrapper is satisfiable (honest hints) iff one asset over all slots, one block hash and fee over real slots, distinct real nullifiers and all group sums < 2^32; acceptance is invariant under slot permutation and under any change of a dummy slot's non-asset fields.", "as C06; adversarial hints are C10's check", "§4 Private-batch wrapper"),
+ "C08": ("wrap_private", EX, "same enumeration; conservation computed from inputs and circuit outputs only",
+         "Within the same sets: sum of output amounts = sum of real slots' outputs; every non-zero output slot carries exactly what real slots sent to that account; dummy slots with non-zero amounts/accounts contribute nothing.", "as C06", "§4 Private-batch wrapper"),
+ "C09": ("wrap_private", EX, "same enumeration; differential oracles over permutation classes and dummy-content classes, zero-slot rule",
+         "Within the same sets: header and nullifier region are identical across all permutations, exit groups only reorder, dummy/duplicate/unused slots are all-zero (zero-account group exception documented in DESIGN.md), and no dummy-slot field other than asset/preimage (nor a real slot's preimage) changes the output.", "as C06", "§4 Private-batch wrapper"),
+ "C10": ("freedom", MC, "stateless deviation-bounded exploration: every script of <=d deviated hint generators on the real wrapper constraint systems and bytes_digest_eq (gadget deviations shared with C30/C31)",
+         "For ~110 private (N=2,3) and 512 public (M=2,3) input vectors incl. sums at 2^32-1/2^32, duplicate nullifiers and alias-prone nullifiers, every hint deviation (d<=1; d<=2 thorough on N=2/M=2) either is rejected or yields the honest public output; no deviation turns an honest reject into accept; free-input census = child PIs + preimages.",
+         "Hint menus (alias decompositions, +-1, borrow, flag/inverse flips, bit flips) rather than all field values; non-hint generators are pinned by their own gate.", "§4 C10"),
+ "C12": ("wrap_public", EX, "bounded-exhaustive enumeration of inner statement vectors on the real public-batch wrapper constraint system (CX, hook H2) against native forwarding",
+         "For every vector over the 256-archetype inner alphabet (M<=2) and a 40-archetype sub-alphabet (M=3), shapes (1,1),(2,1),(3,1),(2,2),(1,3), three addresses: output = address, first real inner's asset/fee/hash/number, 2NM, each inner's slots then nullifiers in inner order, zeros for zero-hash inners; segment i depends only on inner i.",
+         "inner statements are arbitrary vectors (superset of provable ones); 8x8 and 16x1 only sampled.", "§4 Public-batch wrapper"),
+ "C13": ("wrap_public", EX, "same enumeration; acceptance two-sided against the metadata-consistency predicate and constant on never-cross-checked classes",
+         "Within the same sets the wrapper is satisfiable iff all non-zero-hash inners share block hash, asset and fee; slots, nullifiers, numbers, padding and every field of a zero-hash inner never change acceptance.", "as C12", "§4 Public-batch wrapper"),
+ "C23": ("publish", FE, "choice-tree enumeration of every answer script (ok/error/crash-before/crash-after/partial) at every rename and remove call site of the real publish routine, from three initial states; stage faults of generate_all_circuit_binaries in child processes",
+         "All 35 complete fault scripts of commit_staging_dir_impl and all stage-boundary error/abort runs of generation leave the output path holding exactly the previous or exactly the new set (or both copies on disk), report Ok iff the new set is live, and leave no staging directory after an error.",
+         "rename treated as atomic; an erroring rename did nothing; crash inside the publish routine is an unwinding panic (the routine holds no guards); N=1 generation configs.", "§4 C23"),
+ "C27": ("merkle", EX, "bounded-exhaustive enumeration of native proofs (all position vectors over 0..5 to depth 3/4, depths 0..17 with all single corruptions incl. +p byte aliases) against a reference fold; circuit agreement through CX; from_unsorted over all sibling triples of a 6-hash alphabet",
+         "verify/verify_with_positions equal the reference on every enumerated proof; the leaf circuit accepts a canonical path iff the native verifier does; from_unsorted succeeds exactly for canonical paths of depth<=16 with positions = first sorted rank and its result verifies.",
+         "non-canonical bytes are outside the circuit's domain and only checked natively.", "§4 C27"),
+ "C30": ("gadgets", MC, "stateless exploration of the real gadget circuits: full (width,constant,x) grids for widths 1..6, boundary grids for 7..64, every hint deviation script up to d",
+         "For every explored (width, constant, x) and every deviation script (d<=1; d<=2 thorough on widths <=8,32,33,63,64): satisfiable => x<2^w and out=(c<x); honest satisfiable <=> x<2^w; the +p alias at width 64 cannot flip the output; enforce_target_less_than_const accepts exactly x<bound.",
+         "boundary alphabets for widths>=7; plonky2 gate evaluators.", "§4 C30, C31"),
+ "C31": ("gadgets", MC, "stateless exploration of the real sort_digests4 circuit: all lists up to length 3/4 over 8 digests (5/6 over 4), every hint deviation up to d on short lists",
+         "Every explored list sorts to the ascending lexicographic permutation; no deviation script (alias splits, flag flips) yields a different accepted output.",
+         "lengths 8,33,64 only sampled.", "§4 C30, C31"),
+ "C32": ("debugfmt", EX, "enumeration of 21 object kinds x 5 format flags x structured value patterns; needle search over every decimal/hex/byte-list rendering of every private value",
+         "No rendering of any listed type under {:?},{:#?},{:x?},{:X?},{:#x?} contains any private value's bytes, limbs, words or felts in decimal or hex; public fields remain visible.",
+         "textual encodings other than decimal/hex/byte lists are not searched; seeded random patterns are additional to the 6 structured ones.", "§4 C32"),
+ "C33": ("scrub", EX, "exhaustive enumeration of all well-typed secret-handling call sequences up to length 4 (5 thorough) x 4 secret patterns under an allocator that scans every freed block",
+         "No freed heap block (other than the two documented upstream hashing buffers) contains the secret or any distinctive limb, for every enumerated sequence; Secret::new zeroes the caller's buffer for valid and invalid input.",
+         "single-threaded; stack copies and plonky2's buffers out of scope as the crate documents.", "§4 C33"),
+ "C36": ("wrap_private", EX, "exhaustive enumeration of placements of leaf subsets into two private batches chained into the public wrapper (both real constraint builders under CX)",
+         "For all 1044 placements of 1..4 of 6 compatible leaves into 2x2 slots (rest dummy) and outer padding M=2/3: outer non-zero slots sum to the real leaves' outputs; outer non-zero nullifiers = real nullifiers + H(H(u)) of dummy slots of real inners; all-dummy inners add nothing.",
+         "recursion binding is C11; real two-layer proofs in C18's check.", "§4 C36"),
  "C05": ("leafprove", EX, "bounded-exhaustive enumeration of honest inputs (depth x position pattern x corner) and malformed path shapes on the real prover, pinned verifier, both parsers and CX",
          "Every enumerated honest input (all 4^d position patterns for d<=3 quick / <=4 thorough, 6 patterns for deeper trees up to 16, 8 amount/fee corners, 4 transfer counts) is accepted by the circuit with the documented public inputs and by commit; a deterministic subset is proven and verified by the keccak-pinned verifier and parsed back by both parsers; all 361 (siblings,positions) length pairs, depth 64/1000 and positions 4/5/255 give Err, never a panic.",
          "Real proving on a subset only; CX acceptance on all.", "§4 C05"),
